@@ -36,6 +36,7 @@ Next ==
        [] Ev.ev = "fend" -> /\ Ev.v \in inF /\ inF' = inF \ {Ev.v} /\ fin' = fin \cup {Ev.v}
                             /\ ferr' = (IF Ev.err # 0 THEN ferr \cup {Ev.v} ELSE ferr)
                             /\ Un(<<kind, p, buf, gmp, taken, yielded, srcSt, srcClosed, pend, closed, cancelled>>)
+       [] Ev.ev = "srcviol" -> FALSE        \* the instrumented source saw Next after Close / a second Close / overlapping calls (C09)
        [] Ev.ev = "cancel" -> cancelled' = cancelled \cup {Ev.ctx} /\ Un(<<kind, p, buf, gmp, taken, yielded, srcSt, srcClosed, fin, ferr, inF, pend, closed>>)
        [] Ev.ev \in {"rel", "item", "leak"} -> Un(<<kind, p, buf, gmp, taken, yielded, srcSt, srcClosed, fin, ferr, inF, pend, closed, cancelled>>)
        [] Ev.ev = "call" -> /\ pend' = [i \in Ids \cup {Ev.id} |-> IF i = Ev.id THEN [op |-> Ev.op, ctx |-> Ev.ctx] ELSE pend[i]]
